@@ -14,6 +14,22 @@ Law monitors driven by the workload:
   keystone apertures: segment count, coverage counter (no overlap, amp subset of union), every segment inside the
         annulus of its ring, transmitting area of every segment within perimeter*dx of sector-minus-gap-strips, piston
         confinement, linearity
+
+Hardening pass (blind-spot classes of HARDENING.md).  The primitive contracts snapshot their array arguments before the call.
+  A repeat / aliasing   the same coordinate array objects through all seven primitives twice, in C / F / strided / transposed-view
+                        layouts and as float64 / float32 / integer arrays (mask compared with the C-ordered float64 form off the
+                        rasterised edge); the same x, y objects passed to two consecutive aperture constructors (the later one
+                        judged against pristine copies); compose_opd coefficients as ndarray / list / tuple / list of ndarrays /
+                        F-ordered / strided / float32 / int64, and the same coefficient objects again
+  B histories           2..4 (thorough 2..7) prepare_opd_bases / compose_opd cycles on ONE hexagonal or keystone aperture object:
+                        alternating bases, low then high orders, high then low, the same basis again, changing normalisation
+                        radius; every cycle judged for confinement, linearity, zero outside the segments, out=zeros, and against
+                        a fresh aperture of the same geometry (keys of later cycles carry /after-earlier-cycle)
+  C configuration       config.precision = 32 (regular_polygon builds vertices in that precision; band 1e-3*size) for primitives
+                        with float64 and float32 coordinates and for both aperture families, then the same under precision 64
+                        (keys carry /precision=32, /after-precision-32)
+  D regimes             hexagonal apertures with 4..6 (thorough ..9) rings, keystones with 4..5 (..8) rings, polygons with 13..128
+                        sides, grids with aspect ratios up to 1:37 (thorough 1:250)
 """
 import inspect
 import math
@@ -21,7 +37,7 @@ import math
 import numpy as np
 
 from ..contracts import attach, detach_all
-from ..core import parity
+from ..core import Ctx, parity
 from ..refmodels import shapes as sh
 
 RULE = ('primitives: grid class (odd/even, square/non-square, several samplings) x primitive x parameter class (size on / off '
@@ -30,7 +46,11 @@ RULE = ('primitives: grid class (odd/even, square/non-square, several samplings)
         '(Zernike r,t / XY x,y, 1..6 terms); keystones: rings 1..3 x segments-per-ring scalar/list (1..15, one-segment rings '
         'in every tier) x ring widths scalar/list x azimuthal gap class (default, narrow, wide, both gaps wide) x ring rotation '
         'class (default 360/n, 0, scalar / list in [0,180], outside [0,180]) x basis pair; apertures that fit the grid and '
-        'apertures that overfill it; a case is non-trivial when the mask has both values; distinct = distinct descriptor')
+        'apertures that overfill it; a case is non-trivial when the mask has both values; distinct = distinct descriptor.  '
+        'Hardening workloads: coordinate forms (4 memory layouts x float64/float32/int64 coordinates x 7 primitives, every call '
+        'twice on the same array objects); OPD histories (5 sequence kinds x 2..7 cycles x hex/keystone x 6 coefficient containers); '
+        'aperture arguments (grid arrays re-used by two constructors, coefficient containers / dtypes / repeats); configuration '
+        '(precision 32 then 64); regimes (rings >= 4, sides > 12, aspect ratios up to 1:250)')
 ASSUMPTIONS = ['size conventions measured on the pinned tree: circle/annulus radius, polygon circumradius, rectangle half-width / '
                'half-height, ellipse semi-axes, spider full vane width; the statement does not fix a rotation sense, either is '
                'accepted but it must not change during a run',
@@ -45,19 +65,48 @@ ASSUMPTIONS = ['size conventions measured on the pinned tree: circle/annulus rad
                'segments additionally per sample: no disagreement with the analytic hexagon farther than one sample pitch from '
                'its boundary (closer disagreements are counted as events, not violations)',
                'OPD bases are not prepared for overfilling apertures that leave a segment window empty or one sample wide '
-               '(prysm normalises by the window extent there); counted as excluded']
+               '(prysm normalises by the window extent there); counted as excluded',
+               'the routines are deterministic functions of the values of their arguments: a used aperture object must compose '
+               'like a fresh one of the same geometry, the same coefficients in another container must give the same map, a second '
+               'call with the same arrays must reproduce the first',
+               'boundary band 1e-3*size while config.precision is 32 (regular_polygon vertices are float32 then, measured '
+               'displacement <= 1e-6*size) and >= 1e-4*extent for float32 coordinate arrays; masks of the same shape computed from '
+               'coordinates in another layout / dtype are compared except on samples touching the rasterised edge',
+               'compose_opd(..., out=zeros) must equal compose_opd(...) (out is documented as the array the OPD is inserted into)']
 REQUIRED = ['circle.membership', 'annulus.membership', 'regular_polygon.membership', 'rectangle.membership',
             'rotated_ellipse.membership', 'spider.membership', 'offset_circle.membership',
             'primitive.monotone', 'primitive.symmetry',
             'hex.count', 'hex.no-overlap', 'hex.amp==union', 'hex.centres', 'hex.segment-shape', 'hex.area',
             'hex.piston-confined', 'hex.linear',
             'keystone.count', 'keystone.no-overlap', 'keystone.amp-in-union', 'keystone.area', 'keystone.radial-extent', 'keystone.piston-confined',
-            'keystone.linear']
+            'keystone.linear',
+            'primitive.layout', 'primitive.repeat', 'hex.opd-history', 'hex.opd-vs-fresh-aperture', 'hex.opd-out-keyword',
+            'keystone.opd-history', 'keystone.opd-vs-fresh-aperture', 'keystone.opd-out-keyword', 'hex.grid-arrays-reused',
+            'keystone.grid-arrays-reused', 'hex.coef-forms', 'hex.coef-repeat', 'keystone.coef-forms', 'keystone.coef-repeat',
+            'precision32.cases', 'precision32-then-64.cases', 'regime.hex-rings>=4', 'regime.keystone-rings>=4',
+            'regime.polygon-sides>12', 'regime.aspect']
 
 CTX = None
 SENSE = {}
 SIGS = {}
 BAND = 1e-6
+WL = {}           # label of the workload driving the contracts (goes into contract witnesses)
+
+
+def p32():
+    from prysm.conf import config
+    return config.precision is np.float32
+
+
+def bw(size, *coords):
+    """Half-width of the boundary band that is not compared: 1e-6*size; 1e-3*size while prysm is configured for 32 bits
+    (regular_polygon builds its vertices in config.precision: measured displacement <= 1e-6*size); at least 1e-4*extent when
+    a coordinate array is float32 (rounding of rotated / shifted float32 coordinates, 6e-8*extent)."""
+    b = (1e-3 if p32() else BAND) * max(abs(float(size)), 1e-300)
+    for c in coords:
+        if getattr(c, 'dtype', None) in (np.float32, np.float16) and getattr(c, 'size', 0):
+            b = max(b, 1e-4 * float(np.abs(c).max()))
+    return b
 
 
 # =========================================================================================== grids
@@ -73,7 +122,19 @@ def grid_class(n0, n1):
 
 
 # =========================================================================================== contracts on geometry.*
-def _bind(name, args, kwargs):
+def _cp(v):
+    return v.copy() if isinstance(v, np.ndarray) else v
+
+
+def pre_snapshot(args, kwargs):
+    """Copies of the array arguments taken before the call: the analytic shape is evaluated on the coordinates that were
+    passed in, so a primitive that writes into the caller's grid cannot drag the oracle along."""
+    return tuple(_cp(a) for a in args), {k: _cp(v) for k, v in kwargs.items()}
+
+
+def _bind(name, token, args, kwargs):
+    if token is not None:
+        args, kwargs = token
     b = SIGS[name].bind(*args, **kwargs)
     b.apply_defaults()
     return b.arguments
@@ -110,44 +171,44 @@ def _judge(prim, got, variants, desc, label):
 
 
 def post_circle(token, args, kwargs, result):
-    a = _bind('circle', args, kwargs)
+    a = _bind('circle', token, args, kwargs)
     r = np.asarray(a['r'])
     R = float(a['radius'])
     if r.ndim != 2 or r.size == 0:
         return
-    _judge('circle', result, {0: sh.circle_r(r, R, eps=BAND * max(abs(R), 1e-300))},
+    _judge('circle', result, {0: sh.circle_r(r, R, eps=bw(R, r))},
            {'fn': 'circle', 'radius': R, 'shape': r.shape}, 'r<=radius')
 
 
 def post_annulus(token, args, kwargs, result):
-    a = _bind('annulus', args, kwargs)
+    a = _bind('annulus', token, args, kwargs)
     r = np.asarray(a['r'])
     if r.ndim != 2 or r.size == 0:
         return
     rin, rout = float(a['rin']), float(a['rout'])
-    _judge('annulus', result, {0: sh.annulus_r(r, rin, rout, eps=BAND * max(abs(rout), 1e-300))},
+    _judge('annulus', result, {0: sh.annulus_r(r, rin, rout, eps=bw(rout, r))},
            {'fn': 'annulus', 'rin': rin, 'rout': rout, 'shape': r.shape}, 'rin<=r<=rout')
 
 
 def post_offset_circle(token, args, kwargs, result):
-    a = _bind('offset_circle', args, kwargs)
+    a = _bind('offset_circle', token, args, kwargs)
     x, y = np.asarray(a['x']), np.asarray(a['y'])
     if x.ndim != 2 or x.size == 0:
         return
     R = float(a['radius'])
     c = tuple(float(v) for v in a['center'])
-    _judge('offset_circle', result, {0: sh.circle(x, y, R, c, eps=BAND * max(abs(R), 1e-300))},
+    _judge('offset_circle', result, {0: sh.circle(x, y, R, c, eps=bw(R, x, y))},
            {'fn': 'offset_circle', 'radius': R, 'center': c, 'shape': x.shape}, 'offset' if c != (0.0, 0.0) else 'centred')
 
 
 def post_polygon(token, args, kwargs, result):
-    a = _bind('regular_polygon', args, kwargs)
+    a = _bind('regular_polygon', token, args, kwargs)
     x, y = np.asarray(a['x']), np.asarray(a['y'])
     if x.ndim != 2 or x.size == 0:
         return
     n, R, rot = int(a['sides']), float(a['radius']), float(a['rotation'])
     c = tuple(float(v) for v in a['center'])
-    eps = BAND * max(R, 1e-300)
+    eps = bw(R, x, y)
     var = {s: sh.regular_polygon(x, y, n, R, c, rot, sense=s, eps=eps) for s in (+1, -1)}
     if rot == 0:
         var = {0: var[+1]}
@@ -157,14 +218,14 @@ def post_polygon(token, args, kwargs, result):
 
 
 def post_rectangle(token, args, kwargs, result):
-    a = _bind('rectangle', args, kwargs)
+    a = _bind('rectangle', token, args, kwargs)
     x, y = np.asarray(a['x']), np.asarray(a['y'])
     if x.ndim != 2 or x.size == 0:
         return
     w = float(a['width'])
     h = w if a['height'] is None else float(a['height'])
     ang = float(a['angle'])
-    eps = BAND * max(w, h, 1e-300)
+    eps = bw(max(w, h), x, y)
     var = {s: sh.rectangle(x, y, w, h, ang, sense=s, eps=eps) for s in (+1, -1)}
     if ang == 0:
         var = {0: var[+1]}
@@ -173,12 +234,12 @@ def post_rectangle(token, args, kwargs, result):
 
 
 def post_ellipse(token, args, kwargs, result):
-    a = _bind('rotated_ellipse', args, kwargs)
+    a = _bind('rotated_ellipse', token, args, kwargs)
     x, y = np.asarray(a['x']), np.asarray(a['y'])
     if x.ndim != 2 or x.size == 0:
         return
     A, B, ang = float(a['width_major']), float(a['width_minor']), float(a['major_axis_angle'])
-    eps = BAND * A
+    eps = bw(A, x, y)
     var = {s: sh.ellipse(x, y, A, B, ang, sense=s, eps=eps) for s in (+1, -1)}
     if ang == 0:
         var = {0: var[+1]}
@@ -187,7 +248,7 @@ def post_ellipse(token, args, kwargs, result):
 
 
 def post_spider(token, args, kwargs, result):
-    a = _bind('spider', args, kwargs)
+    a = _bind('spider', token, args, kwargs)
     x, y = np.asarray(a['x']), np.asarray(a['y'])
     if x.ndim != 2 or x.size == 0:
         return
@@ -197,7 +258,7 @@ def post_spider(token, args, kwargs, result):
         rot = math.radians(rot)
     c = tuple(float(t) for t in a['center'])
     ext = float(max(np.abs(x).max(), np.abs(y).max(), abs(c[0]), abs(c[1]), w))
-    eps = BAND * ext
+    eps = bw(ext, x, y)
     var = {}
     for s in (+1, -1):
         inv, band = sh.spider(x, y, v, w, rot, c, sense=s, eps=eps)
@@ -214,7 +275,7 @@ def install():
                        ('regular_polygon', post_polygon), ('rectangle', post_rectangle), ('rotated_ellipse', post_ellipse),
                        ('spider', post_spider)):
         SIGS[name] = inspect.signature(getattr(geometry, name))
-        attach(geometry, name, post=post)
+        attach(geometry, name, pre=pre_snapshot, post=post)
 
 
 # =========================================================================================== primitive laws
@@ -273,13 +334,13 @@ def _run_primitives(ctx):
     rng = ctx.rng('c18-prim')
     sizes = [(16, 16), (17, 17), (16, 17), (33, 24), (64, 64), (65, 65), (64, 65), (96, 129), (128, 128), (129, 129)]
     if not ctx.quick:
-        sizes += [(200, 200), (257, 257), (256, 257), (301, 200), (512, 512), (513, 513)]
+        sizes += [(200, 200), (257, 257), (256, 257), (301, 200), (512, 512), (513, 513), (768, 769), (1025, 1024)]
     prims = ['circle', 'annulus', 'offset_circle', 'regular_polygon', 'rectangle', 'rotated_ellipse', 'spider']
-    reps = ctx.pick(30, 160)
+    reps = ctx.pick(30, 700)
     k = -1
     for rep in range(reps):
         for (n0, n1) in sizes:
-            if not ctx.quick and max(n0, n1) > 300 and rep % 6:
+            if not ctx.quick and max(n0, n1) > 300 and rep % (6 if max(n0, n1) < 600 else 30):
                 continue
             for prim in prims:
                 k += 1
@@ -321,9 +382,9 @@ def _primitive_case(ctx, g, r, prim, x, y, n0, n1, dx, half, base):
         with ctx.guard('C18/circle', desc):
             m1, m2 = g.circle(s1, rr), g.circle(s2, rr)
             ctx.case(desc, nontrivial=_nontrivial(m1))
-            band = sh.circle_r(rr, s1, BAND * s1)[1] | sh.circle_r(rr, s2, BAND * s2)[1]
+            band = sh.circle_r(rr, s1, bw(s1, rr))[1] | sh.circle_r(rr, s2, bw(s2, rr))[1]
             _subset(ctx, prim, m1, m2, band, desc, 'circle(r1) is not contained in circle(r2) for r1 < r2')
-            _symmetric(ctx, prim, m1, sh.circle_r(rr, s1, BAND * s1)[1], ['flipx', 'flipy', 'rot180', 'transpose'], n0, n1, desc)
+            _symmetric(ctx, prim, m1, sh.circle_r(rr, s1, bw(s1, rr))[1], ['flipx', 'flipy', 'rot180', 'transpose'], n0, n1, desc)
     elif prim == 'annulus':
         s1, s2 = _size_pair(r, 4 * dx, 1.1 * half, dx)
         rin = s1 * float(r.uniform(0.1, 0.9))
@@ -331,8 +392,8 @@ def _primitive_case(ctx, g, r, prim, x, y, n0, n1, dx, half, base):
         with ctx.guard('C18/annulus', desc):
             m1, m2 = g.annulus(rin, s1, rr), g.annulus(rin, s2, rr)
             ctx.case(desc, nontrivial=_nontrivial(m1))
-            b1 = sh.annulus_r(rr, rin, s1, BAND * s1)[1]
-            band = b1 | sh.annulus_r(rr, rin, s2, BAND * s2)[1]
+            b1 = sh.annulus_r(rr, rin, s1, bw(s1, rr))[1]
+            band = b1 | sh.annulus_r(rr, rin, s2, bw(s2, rr))[1]
             _subset(ctx, prim, m1, m2, band, desc, 'annulus(rin, r1) is not contained in annulus(rin, r2) for r1 < r2')
             _symmetric(ctx, prim, m1, b1, ['flipx', 'flipy', 'rot180', 'transpose'], n0, n1, desc)
     elif prim == 'offset_circle':
@@ -342,8 +403,8 @@ def _primitive_case(ctx, g, r, prim, x, y, n0, n1, dx, half, base):
         with ctx.guard('C18/offset_circle', desc):
             m1, m2 = g.offset_circle(s1, x, y, c), g.offset_circle(s2, x, y, c)
             ctx.case(desc, nontrivial=_nontrivial(m1))
-            b1 = sh.circle(x, y, s1, c, BAND * s1)[1]
-            _subset(ctx, prim, m1, m2, b1 | sh.circle(x, y, s2, c, BAND * s2)[1], desc,
+            b1 = sh.circle(x, y, s1, c, bw(s1, x, y))[1]
+            _subset(ctx, prim, m1, m2, b1 | sh.circle(x, y, s2, c, bw(s2, x, y))[1], desc,
                     'offset_circle(r1) is not contained in offset_circle(r2) for r1 < r2')
             if c == (0.0, 0.0):
                 _symmetric(ctx, prim, m1, b1, ['flipx', 'flipy', 'rot180', 'transpose'], n0, n1, desc)
@@ -359,8 +420,8 @@ def _primitive_case(ctx, g, r, prim, x, y, n0, n1, dx, half, base):
             m2 = g.regular_polygon(sides, s2, x, y, center=c, rotation=rot)
             ctx.case(desc, nontrivial=_nontrivial(m1))
             sense = SENSE.get('regular_polygon', +1)
-            b1 = sh.regular_polygon(x, y, sides, s1, c, rot, sense, BAND * s1)[1]
-            _subset(ctx, prim, m1, m2, b1 | sh.regular_polygon(x, y, sides, s2, c, rot, sense, BAND * s2)[1], desc,
+            b1 = sh.regular_polygon(x, y, sides, s1, c, rot, sense, bw(s1, x, y))[1]
+            _subset(ctx, prim, m1, m2, b1 | sh.regular_polygon(x, y, sides, s2, c, rot, sense, bw(s2, x, y))[1], desc,
                     'regular_polygon(R1) is not contained in regular_polygon(R2) for R1 < R2')
             if c == (0.0, 0.0) and rot == 0:
                 ops = ['flipx'] + (['flipy', 'rot180'] if sides % 2 == 0 else []) + (['transpose'] if sides % 4 == 0 else [])
@@ -381,8 +442,8 @@ def _primitive_case(ctx, g, r, prim, x, y, n0, n1, dx, half, base):
             ctx.case(desc, nontrivial=_nontrivial(m1))
             sense = SENSE.get('rectangle', +1)
             hh1, hh2 = (s1 if h1 is None else h1), (s2 if h2 is None else h2)
-            b1 = sh.rectangle(x, y, s1, hh1, ang, sense, BAND * max(s1, hh1))[1]
-            _subset(ctx, prim, m1, m2, b1 | sh.rectangle(x, y, s2, hh2, ang, sense, BAND * max(s2, hh2))[1], desc,
+            b1 = sh.rectangle(x, y, s1, hh1, ang, sense, bw(max(s1, hh1), x, y))[1]
+            _subset(ctx, prim, m1, m2, b1 | sh.rectangle(x, y, s2, hh2, ang, sense, bw(max(s2, hh2), x, y))[1], desc,
                     'rectangle(w1,h1) is not contained in rectangle(w2,h2) for w1<w2, h1<h2')
             ops = ['rot180'] + (['flipx', 'flipy'] if ang in (0, 90, 180) else []) + (['transpose'] if ratio is None and ang in (0, 90, 180) else [])
             _symmetric(ctx, prim, m1, b1, ops, n0, n1, desc)
@@ -397,9 +458,9 @@ def _primitive_case(ctx, g, r, prim, x, y, n0, n1, dx, half, base):
             m2 = g.rotated_ellipse(s2, s2 * ratio, x, y, major_axis_angle=ang)
             ctx.case(desc, nontrivial=_nontrivial(m1))
             sense = SENSE.get('rotated_ellipse', +1)
-            b1 = sh.ellipse(x, y, s1, s1 * ratio, ang, sense, BAND * s1)[1]
+            b1 = sh.ellipse(x, y, s1, s1 * ratio, ang, sense, bw(s1, x, y))[1]
             _subset(ctx, prim, np.asarray(m1) != 0, np.asarray(m2) != 0,
-                    b1 | sh.ellipse(x, y, s2, s2 * ratio, ang, sense, BAND * s2)[1], desc,
+                    b1 | sh.ellipse(x, y, s2, s2 * ratio, ang, sense, bw(s2, x, y))[1], desc,
                     'rotated_ellipse(a1,b1) is not contained in rotated_ellipse(a2,b2) for a1<a2, b1<b2')
             _symmetric(ctx, prim, m1, b1, ['rot180'] + (['flipx', 'flipy'] if ang in (0, 90, 180) else []), n0, n1, desc)
     elif prim == 'spider':
@@ -417,8 +478,8 @@ def _primitive_case(ctx, g, r, prim, x, y, n0, n1, dx, half, base):
             ctx.case(desc, nontrivial=_nontrivial(m1))
             sense = SENSE.get('spider', +1)
             ext = float(max(np.abs(x).max(), np.abs(y).max(), abs(c[0]), abs(c[1])))
-            b1 = sh.spider(x, y, vanes, w1, math.radians(rot), c, sense, BAND * ext)[1]
-            b2 = sh.spider(x, y, vanes, w2, math.radians(rot), c, sense, BAND * ext)[1]
+            b1 = sh.spider(x, y, vanes, w1, math.radians(rot), c, sense, bw(ext, x, y))[1]
+            b2 = sh.spider(x, y, vanes, w2, math.radians(rot), c, sense, bw(ext, x, y))[1]
             # the obscuration grows with the vane width: the transmitting mask shrinks
             _subset(ctx, prim, m2, m1, b1 | b2, desc, 'a wider spider transmits a sample that the narrower spider blocks')
             if c == (0.0, 0.0) and rot == 0:
@@ -480,9 +541,9 @@ def _run_hex(ctx):
     rng = ctx.rng('c18-hex')
     grids = [(64, 64), (65, 65), (96, 97), (128, 128), (129, 129), (161, 128), (200, 201), (256, 256), (257, 257)]
     if not ctx.quick:
-        grids += [(300, 301), (384, 384), (385, 385), (512, 512), (513, 513)]
+        grids += [(300, 301), (384, 384), (385, 385), (512, 512), (513, 513), (640, 641), (768, 768)]
     excl_classes = ['none', 'centre', 'random', 'all-but-one']
-    total_cases = ctx.pick(320, 3000)
+    total_cases = ctx.pick(320, 16000)
     for k in range(total_cases):
         if not ctx.mine(k):
             ctx.subseed(rng)
@@ -490,7 +551,7 @@ def _run_hex(ctx):
         sub = ctx.subseed(rng)
         r = np.random.default_rng(sub)
         n0, n1 = grids[k % len(grids)] if k < 4 * len(grids) else grids[int(r.integers(len(grids)))]
-        rings = 1 + (k // len(grids)) % 4
+        rings = 1 + (k // len(grids)) % ctx.pick(4, 6)
         angle = [90, 0][k % 2]
         ecls = excl_classes[(k // 2) % 4]
         ext = [8.0, 2.0, 0.3][int(r.integers(3))]
@@ -562,7 +623,7 @@ def _check_hex(ctx, ap, r, x, y, dx, rings, d, gap, angle, excl, desc):
         i1 = min(shape[1], int(np.searchsorted(x[0, :], cx + R + 2 * dx)) + 1)
         box = (slice(j0, j1), slice(i0, i1))
         full = _full(shape, w, m)
-        inside, band = sh.regular_polygon(x[box], y[box], 6, R, (cx, cy), float(angle), +1, BAND * R)
+        inside, band = sh.regular_polygon(x[box], y[box], 6, R, (cx, cy), float(angle), +1, bw(R, x))
         nband += int(band.sum())
         ctx.observe('hex.segment-shape')
         outside_box = full.copy()
@@ -593,32 +654,83 @@ def _check_hex(ctx, ap, r, x, y, dx, rings, d, gap, angle, excl, desc):
     if nband:
         ctx.skip('samples within 1e-6*size of the analytic boundary (not compared)', nband)
     # --- OPD
-    kind, func, orders, kw, unit = _bases(r)
-    desc2 = dict(desc, basis=kind, nterms=len(orders), **{'class': desc['class'] + f':{kind}'})
     if any(min(np.asarray(m).shape) < 2 for m in ap.local_masks):
         ctx.skip('hex.opd: a segment window is empty or one sample wide (segment off the grid); OPD bases not prepared')
-        return
-    with ctx.guard(f'C18/hex/opd/{kind}', desc2):
-        ap.prepare_opd_bases(func, orders, basis_func_kwargs=kw)
+        return None
+    spec = _bases(r)
+    _hex_opd_cycle(ctx, ap, r, shape, cover, ids, spec, desc)
+    return cover, len(spec[2])
+
+
+def _hex_opd_cycle(ctx, ap, r, shape, cover, ids, spec, desc, tag='', fresh=None, coef_form='ndarray'):
+    """One prepare_opd_bases / compose_opd cycle on `ap`, judged for confinement and linearity.  `tag` is appended to the
+    violation keys (history position), `fresh` is a factory for a new aperture with the same geometry: its composition
+    (prepared once, with this cycle's basis) must equal the used aperture's."""
+    kind, func, orders, kw, unit = spec[:5]
+    nrad = spec[5] if len(spec) > 5 else None
+    nseg = len(ids)
+    desc2 = dict(desc, basis=kind, nterms=len(orders), **{'class': desc['class'] + f':{kind}'})
+    if nrad is not None:
+        desc2['normalization_radius'] = nrad
+    with ctx.guard(f'C18/hex/opd/{kind}{tag}', desc2):
+        if nrad is None:
+            ap.prepare_opd_bases(func, orders, basis_func_kwargs=kw)
+        else:
+            ap.prepare_opd_bases(func, orders, basis_func_kwargs=kw, normalization_radius=nrad)
         nt = len(orders)
         pick = list(range(nseg)) if nseg <= 7 else sorted(set([0, nseg - 1] + [int(v) for v in r.integers(0, nseg, 5)]))
         for s in pick:
             co = np.zeros((nseg, nt))
             co[s, 0] = 1.0
-            opd = ap.compose_opd(co)
+            opd = ap.compose_opd(_coef_form(co, coef_form))
             seg = _full(shape, ap.windows[s], ap.local_masks[s])
             okc = np.array_equal(opd != 0, seg) and (not unit or bool(np.all(opd[seg] == 1.0)))
-            ctx.require('hex.piston-confined', okc, f'C18/hex/piston-not-confined/{kind}', 'a unit piston on one segment changes a '
+            ctx.require('hex.piston-confined', okc, f'C18/hex/piston-not-confined/{kind}{tag}', 'a unit piston on one segment changes a '
                         'sample outside that segment, or not every sample inside it', desc2, segment=ids[s],
                         outside=int(((opd != 0) & ~seg).sum()), missing=int(((opd == 0) & seg).sum()))
         c1, c2 = r.standard_normal((nseg, nt)), r.standard_normal((nseg, nt))
         al, be = float(r.uniform(-2, 2)), float(r.uniform(-2, 2))
-        lhs = ap.compose_opd(al * c1 + be * c2)
-        rhs = al * ap.compose_opd(c1) + be * ap.compose_opd(c2)
-        ctx.close('hex.linear', lhs, rhs, f'C18/hex/compose_opd-nonlinear/{kind}', 'compose_opd is not linear in the coefficients', desc2,
+        lhs = ap.compose_opd(_coef_form(al * c1 + be * c2, coef_form))
+        o1 = ap.compose_opd(_coef_form(c1, coef_form))
+        rhs = al * o1 + be * ap.compose_opd(_coef_form(c2, coef_form))
+        ctx.close('hex.linear', lhs, rhs, f'C18/hex/compose_opd-nonlinear/{kind}{tag}', 'compose_opd is not linear in the coefficients', desc2,
                   rtol=1e-10, scale=max(float(np.abs(rhs).max()), 1e-300))
-        ctx.require('hex.piston-confined', bool(np.all(lhs[~(cover > 0)] == 0)), f'C18/hex/opd-outside-segments/{kind}',
+        ctx.require('hex.piston-confined', bool(np.all(lhs[~(cover > 0)] == 0)), f'C18/hex/opd-outside-segments/{kind}{tag}',
                     'compose_opd is non-zero outside every segment', desc2)
+        if fresh is not None:
+            ap2 = fresh()
+            if nrad is None:
+                ap2.prepare_opd_bases(func, orders, basis_func_kwargs=kw)
+            else:
+                ap2.prepare_opd_bases(func, orders, basis_func_kwargs=kw, normalization_radius=nrad)
+            ctx.close('hex.opd-vs-fresh-aperture', o1, ap2.compose_opd(c1.copy()), f'C18/hex/opd-differs-from-fresh-aperture/{kind}{tag}',
+                      'compose_opd on an aperture that went through earlier prepare/compose cycles differs from a fresh aperture '
+                      'with the same geometry, basis and coefficients', desc2, rtol=1e-12, scale=max(float(np.abs(o1).max()), 1e-300))
+        return o1, c1
+
+
+def _coef_form(co, form):
+    """The same coefficients in another container / dtype / memory layout."""
+    co = np.asarray(co)
+    if form == 'ndarray':
+        return co
+    if form == 'list':
+        return co.tolist()
+    if form == 'tuple':
+        return tuple(tuple(float(v) for v in row) for row in co) if co.ndim == 2 else tuple(float(v) for v in co)
+    if form == 'list-of-ndarray':
+        return [row.copy() for row in co] if co.ndim == 2 else [np.float64(v) for v in co]
+    if form == 'F-order':
+        return np.asfortranarray(co)
+    if form == 'strided':
+        if co.ndim == 2:
+            big = np.zeros((co.shape[0] * 2, co.shape[1] * 3 + 1))
+            big[::2, 1::3] = co
+            return big[::2, 1::3]
+        big = np.zeros(co.size * 2 + 1)
+        big[1::2] = co
+        return big[1::2]
+    raise ValueError(form)
 
 
 # =========================================================================================== keystone apertures
@@ -628,7 +740,7 @@ def _run_keystone(ctx):
     grids = [(96, 96), (97, 97), (128, 129), (160, 160), (201, 201), (256, 256), (257, 257)]
     if not ctx.quick:
         grids += [(300, 301), (384, 384), (385, 385), (512, 512), (513, 513)]
-    total_cases = ctx.pick(160, 1200)
+    total_cases = ctx.pick(160, 7000)
     for k in range(total_cases):
         sub = ctx.subseed(rng)
         if not ctx.mine(k):
@@ -789,7 +901,7 @@ def _check_keystone(ctx, ap, r, x, y, dx, ccd, rings, rr_list, spr_list, rgap, a
         for _ in range(nseg_r):
             # documented ring geometry: ring j spans (previous outer radius + radial_gap, + ring_radius]
             rw = rfull[ap.segment_windows[s]]
-            stray = np.asarray(ap.segment_masks[s]) & ((rw < ri - BAND * ro) | (rw > ro + BAND * ro))
+            stray = np.asarray(ap.segment_masks[s]) & ((rw < ri - bw(ro, rfull)) | (rw > ro + bw(ro, rfull)))
             ctx.require('keystone.radial-extent', not stray.any(), 'C18/keystone/segment-outside-its-ring' + kc,
                         'a keystone segment contains a sample outside the annulus [inner, outer] of its ring', desc,
                         ring=ring, segment=s, samples=int(stray.sum()))
@@ -823,26 +935,46 @@ def _check_keystone(ctx, ap, r, x, y, dx, ccd, rings, rr_list, spr_list, rgap, a
                 ctx.skip('keystone.area: ring cut by the edge of the grid (area not compared)')
             s += 1
     # --- OPD
-    from prysm.polynomials import zernike_nm_seq, xy_seq
-    mode = ['zernike/zernike', 'zernike/xy', 'xy/zernike'][int(r.integers(3))]
-    zn = [(0, 0), (1, 1), (1, -1), (2, 0)][:int(r.integers(1, 5))]
-    xn = [(0, 0), (1, 0), (0, 1), (1, 1)][:int(r.integers(1, 5))]
-    desc2 = dict(desc, basis=mode, **{'class': desc['class'] + f':{mode}'})
     if any(min(np.asarray(m).shape) < 2 for m in list(ap.segment_masks) + [ap.center_mask]):
         # prysm normalises a segment's coordinates by the extent of its window; a window clamped to nothing or to a
         # single row/column by the edge of the grid has no extent (overfilling apertures only)
         ctx.skip('keystone.opd: a segment window is empty or one sample wide (segment off the grid); OPD bases not prepared')
-        return
-    with ctx.guard(f'C18/keystone/opd/{mode}', desc2):
-        if mode == 'zernike/zernike':
-            ap.prepare_opd_bases(zernike_nm_seq, zn, zernike_nm_seq, zn)
-            nc, ns = len(zn), len(zn)
-        elif mode == 'zernike/xy':
-            ap.prepare_opd_bases(zernike_nm_seq, zn, xy_seq, xn, rotate_xyaxes=True, segment_basis_kwargs={'cartesian_grid': False})
-            nc, ns = len(zn), len(xn)
-        else:
-            ap.prepare_opd_bases(xy_seq, xn, zernike_nm_seq, zn, center_basis_kwargs={'cartesian_grid': False})
-            nc, ns = len(xn), len(zn)
+        return False
+    spec = _keystone_spec(r)
+    _keystone_opd_cycle(ctx, ap, r, shape, spec, desc)
+    mode, zn, xn = spec
+    return {'zernike/zernike': (len(zn), len(zn)), 'zernike/xy': (len(zn), len(xn)), 'xy/zernike': (len(xn), len(zn))}[mode]
+
+
+KEY_Z = [(0, 0), (1, 1), (1, -1), (2, 0), (2, 2), (2, -2), (3, 1)]
+KEY_X = [(0, 0), (1, 0), (0, 1), (1, 1), (2, 0), (0, 2)]
+
+
+def _keystone_spec(r, mode=None, nz=None, nx=None, hi=4):
+    mode = mode or ['zernike/zernike', 'zernike/xy', 'xy/zernike'][int(r.integers(3))]
+    nz = nz or int(r.integers(1, hi + 1))
+    nx = nx or int(r.integers(1, hi + 1))
+    return mode, KEY_Z[:nz], KEY_X[:nx]
+
+
+def _keystone_prepare(ap, mode, zn, xn):
+    from prysm.polynomials import zernike_nm_seq, xy_seq
+    if mode == 'zernike/zernike':
+        ap.prepare_opd_bases(zernike_nm_seq, zn, zernike_nm_seq, zn)
+        return len(zn), len(zn)
+    if mode == 'zernike/xy':
+        ap.prepare_opd_bases(zernike_nm_seq, zn, xy_seq, xn, rotate_xyaxes=True, segment_basis_kwargs={'cartesian_grid': False})
+        return len(zn), len(xn)
+    ap.prepare_opd_bases(xy_seq, xn, zernike_nm_seq, zn, center_basis_kwargs={'cartesian_grid': False})
+    return len(xn), len(zn)
+
+
+def _keystone_opd_cycle(ctx, ap, r, shape, spec, desc, tag='', fresh=None, coef_form='ndarray'):
+    mode, zn, xn = spec
+    nseg = len(ap.segment_ids)
+    desc2 = dict(desc, basis=mode, nz=len(zn), nx=len(xn), **{'class': desc['class'] + f':{mode}'})
+    with ctx.guard(f'C18/keystone/opd/{mode}{tag}', desc2):
+        nc, ns = _keystone_prepare(ap, mode, zn, xn)
         segs = [_full(shape, ap.center_window, ap.center_mask)] + [_full(shape, w, m) for w, m in zip(ap.segment_windows, ap.segment_masks)]
         pick = sorted(set([0, 1, nseg] + [int(v) for v in r.integers(0, nseg + 1, 4)]))
         for p in pick:
@@ -852,18 +984,607 @@ def _check_keystone(ctx, ap, r, x, y, dx, ccd, rings, rr_list, spr_list, rgap, a
                 cc[0] = 1.0
             else:
                 sc[p - 1, 0] = 1.0
-            opd = ap.compose_opd(cc, sc)
+            opd = ap.compose_opd(_coef_form(cc, coef_form), _coef_form(sc, coef_form))
             okc = np.array_equal(opd != 0, segs[p])
-            ctx.require('keystone.piston-confined', okc, f'C18/keystone/piston-not-confined/{mode}',
+            ctx.require('keystone.piston-confined', okc, f'C18/keystone/piston-not-confined/{mode}{tag}',
                         'a unit piston on one segment changes a sample outside that segment, or not every sample inside it', desc2,
                         segment=p - 1, outside=int(((opd != 0) & ~segs[p]).sum()), missing=int(((opd == 0) & segs[p]).sum()))
         a1, a2 = r.standard_normal(nc), r.standard_normal(nc)
         b1, b2 = r.standard_normal((nseg, ns)), r.standard_normal((nseg, ns))
         al, be = float(r.uniform(-2, 2)), float(r.uniform(-2, 2))
-        lhs = ap.compose_opd(al * a1 + be * a2, al * b1 + be * b2)
-        rhs = al * ap.compose_opd(a1, b1) + be * ap.compose_opd(a2, b2)
-        ctx.close('keystone.linear', lhs, rhs, f'C18/keystone/compose_opd-nonlinear/{mode}', 'compose_opd is not linear in the coefficients',
+        lhs = ap.compose_opd(_coef_form(al * a1 + be * a2, coef_form), _coef_form(al * b1 + be * b2, coef_form))
+        o1 = ap.compose_opd(_coef_form(a1, coef_form), _coef_form(b1, coef_form))
+        rhs = al * o1 + be * ap.compose_opd(_coef_form(a2, coef_form), _coef_form(b2, coef_form))
+        ctx.close('keystone.linear', lhs, rhs, f'C18/keystone/compose_opd-nonlinear/{mode}{tag}', 'compose_opd is not linear in the coefficients',
                   desc2, rtol=1e-10, scale=max(float(np.abs(rhs).max()), 1e-300))
+        union = np.zeros(shape, dtype=bool)
+        for sg in segs:
+            union |= sg
+        ctx.require('keystone.piston-confined', bool(np.all(lhs[~union] == 0)), f'C18/keystone/opd-outside-segments/{mode}{tag}',
+                    'compose_opd is non-zero outside every segment', desc2)
+        if fresh is not None:
+            ap2 = fresh()
+            _keystone_prepare(ap2, mode, zn, xn)
+            ctx.close('keystone.opd-vs-fresh-aperture', o1, ap2.compose_opd(a1.copy(), b1.copy()),
+                      f'C18/keystone/opd-differs-from-fresh-aperture/{mode}{tag}',
+                      'compose_opd on an aperture that went through earlier prepare/compose cycles differs from a fresh aperture '
+                      'with the same geometry, basis and coefficients', desc2, rtol=1e-12, scale=max(float(np.abs(o1).max()), 1e-300))
+        return o1, a1, b1
+
+
+# =========================================================================================== hardening workloads
+class Tagged:
+    """View of the run context that appends a class label to every violation key raised through it (configuration
+    workloads: a defect that exists only under precision 32 / only after a 32 -> 64 switch gets its own key)."""
+
+    def __init__(self, ctx, suffix):
+        self._ctx = ctx
+        self._suffix = suffix
+
+    def __getattr__(self, k):
+        return getattr(self._ctx, k)
+
+    def violation(self, key, what, desc=None, **detail):
+        self._ctx.violation(key + self._suffix, what, desc, **detail)
+
+    close = Ctx.close
+    equal = Ctx.equal
+    require = Ctx.require
+    guard = Ctx.guard
+
+
+class driving:
+    """with driving(ctx, wl=...): the contracts report to ctx and carry the workload label in their witnesses."""
+
+    def __init__(self, ctx, **labels):
+        self.ctx, self.labels = ctx, labels
+
+    def __enter__(self):
+        global CTX
+        self.old = (CTX, dict(WL))
+        CTX = self.ctx
+        WL.clear()
+        WL.update(self.labels)
+        return self.ctx
+
+    def __exit__(self, *a):
+        global CTX
+        CTX = self.old[0]
+        WL.clear()
+        WL.update(self.old[1])
+
+
+def _hex_geometry(r, n0, n1, rings, overfill=False):
+    """Random hexagonal-aperture parameters that fit the grid (None when the segments would be under 6 samples)."""
+    ext = [8.0, 2.0, 0.3][int(r.integers(3))]
+    dx = ext / max(n0, n1)
+    fill = float(r.uniform(1.05, 1.4)) if overfill else float(r.uniform(0.6, 0.97))
+    gap = float(r.uniform(0.5, 3.0)) * dx
+    pitch = fill * (min(n0, n1) * dx) / (2 * rings + 1)
+    d = pitch - gap
+    if d < 6 * dx:
+        return None
+    return dx, d, gap
+
+
+def _keystone_geometry(r, n0, n1, rings):
+    ext = [8.0, 2.0, 0.5][int(r.integers(3))]
+    dx = ext / max(n0, n1)
+    half = min(n0, n1) * dx / 2
+    fill = float(r.uniform(0.7, 0.95))
+    ccd = float(r.uniform(0.2, 0.4)) * 2 * half * fill
+    rgap = float(r.uniform(0.5, 2.5)) * dx
+    agap = None if r.random() < 0.4 else float(r.uniform(0.5, 1.9)) * rgap
+    ring_w = (half * fill - ccd / 2) / rings - rgap
+    if ring_w < 5 * dx:
+        return None
+    spr = [int(r.integers(2, 9)) * (j + 1) if r.random() < 0.5 else int(r.integers(2, 13)) for j in range(rings)]
+    rot = [None, 0.0, float(r.uniform(0, 180))][int(r.integers(3))]
+    return dx, dict(center_circle_diameter=ccd, rings=rings, ring_radius=ring_w, segments_per_ring=spr, radial_gap=rgap,
+                    azimuthal_gap=agap, rotation_per_ring=rot)
+
+
+def _hex_spec(r, kind, nterm, nrad=None):
+    from prysm.polynomials import zernike_nm_seq, xy_seq
+    if kind == 'zernike':
+        pool = [(0, 0), (1, 1), (1, -1), (2, 0), (2, 2), (2, -2), (3, 1), (3, -1), (4, 0), (3, 3), (3, -3), (4, 2)]
+        return ('zernike', zernike_nm_seq, pool[:nterm], {'norm': bool(r.random() < 0.5)}, True, nrad)
+    pool = [(0, 0), (1, 0), (0, 1), (1, 1), (2, 0), (0, 2), (2, 1), (1, 2), (3, 0)]
+    return ('xy', xy_seq, pool[:nterm], {'cartesian_grid': False}, False, nrad)
+
+
+HIST_KINDS = ['alternate-basis', 'low-then-high-order', 'high-then-low-order', 'same-basis-again', 'normalization-radius-changes']
+COEF_FORMS = ['ndarray', 'list', 'tuple', 'list-of-ndarray', 'F-order', 'strided']
+
+
+def _hex_specs_for(r, kind, ncyc, vtov):
+    out = []
+    for c in range(ncyc):
+        if kind == 'alternate-basis':
+            out.append(_hex_spec(r, ['zernike', 'xy'][c % 2], int(r.integers(1, 8))))
+        elif kind == 'low-then-high-order':
+            out.append(_hex_spec(r, 'zernike', min(12, 1 + 3 * c + int(r.integers(0, 2)))))
+        elif kind == 'high-then-low-order':
+            out.append(_hex_spec(r, ['zernike', 'xy'][int(r.integers(2))], max(1, 9 - 3 * c)))
+        elif kind == 'same-basis-again':
+            out.append(_hex_spec(np.random.default_rng(5), 'zernike', 4))
+        else:
+            nrad = [None, vtov / 2 * float(r.uniform(0.7, 1.5)), (vtov * 0.6, vtov * 0.8)][c % 3]
+            out.append(_hex_spec(r, ['xy', 'zernike'][c % 2] if not isinstance(nrad, tuple) else 'xy', int(r.integers(1, 6)), nrad))
+    return out
+
+
+def _run_opd_histories(ctx):
+    """Several prepare_opd_bases / compose_opd cycles on ONE aperture object (different bases, orders, normalisation radii and
+    coefficients), each judged for confinement and linearity and against a fresh aperture of the same geometry."""
+    from prysm.segmented import CompositeHexagonalAperture, CompositeKeystoneAperture
+    rng = ctx.rng('c18-opd-history')
+    grids = [(64, 64), (65, 65), (96, 97), (129, 128), (128, 128)] + ([] if ctx.quick else [(200, 201), (256, 256), (257, 257)])
+    with driving(ctx, wl='opd-history'):
+        for k in range(ctx.pick(36, 4000)):
+            sub = ctx.subseed(rng)
+            if not ctx.mine(k):
+                continue
+            r = np.random.default_rng(sub)
+            family = ['hex', 'keystone'][k % 2]
+            kind = HIST_KINDS[(k // 2) % len(HIST_KINDS)]
+            ncyc = 2 + (k // 10) % ctx.pick(3, 6)
+            n0, n1 = grids[(k // 2) % len(grids)] if k < 4 * len(grids) else grids[int(r.integers(len(grids)))]
+            rings = 1 + (k // 4) % 3
+            x, y = grid(n0, n1, 1.0)
+            if family == 'hex':
+                geo = _hex_geometry(r, n0, n1, rings)
+                if geo is None:
+                    ctx.skip('hex: segment smaller than 6 samples for this grid/ring count (not generated)')
+                    continue
+                dx, d, gap = geo
+                x, y = grid(n0, n1, dx)
+                angle = [90, 0][(k // 2) % 2]
+                total = sh.hex_count(rings)
+                excl = _exclusion(r, ['none', 'centre', 'random'][(k // 6) % 3], total)
+                desc = {'wl': 'opd-history', 'family': 'hex', 'grid': (n0, n1), 'dx': dx, 'rings': rings, 'segment_diameter': d,
+                        'segment_separation': gap, 'segment_angle': angle, 'exclude': list(excl), 'sequence': kind, 'cycles': ncyc,
+                        'seed': sub, 'class': f'history:hex:{kind}:cycles={ncyc}'}
+                ctx.case(desc)
+
+                def mk():
+                    return CompositeHexagonalAperture(x.copy(), y.copy(), rings, d, gap, segment_angle=angle, exclude=excl)
+                with ctx.guard('C18/hex', desc):
+                    ap = mk()
+                    ids = [int(i) for i in ap.segment_ids]
+                    cover = _scatter(x.shape, ap.windows, ap.local_masks)
+                    for ci, spec in enumerate(_hex_specs_for(r, kind, ncyc, 2 * d / math.sqrt(3))):
+                        tag = '' if ci == 0 else '/after-earlier-cycle'
+                        form = COEF_FORMS[(k + ci) % len(COEF_FORMS)]
+                        got = _hex_opd_cycle(ctx, ap, r, x.shape, cover, ids, spec, dict(desc, cycle=ci, coef_form=form), tag=tag,
+                                             fresh=mk if ci else None, coef_form=form)
+                        if ci:
+                            ctx.observe('hex.opd-history')
+                        if got is not None:
+                            o1, c1 = got
+                            out = np.zeros_like(x)
+                            res = ap.compose_opd(c1, out=out)
+                            ctx.close('hex.opd-out-keyword', res, o1, 'C18/hex/compose_opd/out=zeros-differs' + tag,
+                                      'compose_opd(coefs, out=zeros) differs from compose_opd(coefs)', dict(desc, cycle=ci),
+                                      rtol=1e-12, scale=max(float(np.abs(o1).max()), 1e-300))
+            else:
+                geo = _keystone_geometry(r, n0, n1, rings)
+                if geo is None:
+                    ctx.skip('keystone: ring narrower than 5 samples for this grid/ring count (not generated)')
+                    continue
+                dx, kw = geo
+                x, y = grid(n0, n1, dx)
+                desc = {'wl': 'opd-history', 'family': 'keystone', 'grid': (n0, n1), 'dx': dx, 'sequence': kind, 'cycles': ncyc, 'seed': sub,
+                        'class': f'history:keystone:{kind}:cycles={ncyc}', **{k2: v for k2, v in kw.items()}}
+                ctx.case(desc)
+
+                def mk():
+                    return CompositeKeystoneAperture(x.copy(), y.copy(), **kw)
+                with ctx.guard('C18/keystone', desc):
+                    ap = mk()
+                    if any(min(np.asarray(m).shape) < 2 for m in list(ap.segment_masks) + [ap.center_mask]):
+                        ctx.skip('keystone.opd: a segment window is empty or one sample wide (segment off the grid); OPD bases not prepared')
+                        continue
+                    modes = ['zernike/zernike', 'zernike/xy', 'xy/zernike']
+                    for ci in range(ncyc):
+                        if kind == 'alternate-basis':
+                            spec = _keystone_spec(r, modes[(k // 2 + ci) % 3], hi=6)
+                        elif kind == 'low-then-high-order':
+                            spec = _keystone_spec(r, modes[int(r.integers(3))], nz=min(7, 1 + 2 * ci), nx=min(6, 1 + 2 * ci))
+                        elif kind == 'high-then-low-order':
+                            spec = _keystone_spec(r, modes[int(r.integers(3))], nz=max(1, 7 - 3 * ci), nx=max(1, 6 - 2 * ci))
+                        elif kind == 'same-basis-again':
+                            spec = _keystone_spec(r, modes[(k // 2) % 3], nz=3, nx=3)
+                        else:
+                            spec = _keystone_spec(r, modes[ci % 3], hi=5)
+                        tag = '' if ci == 0 else '/after-earlier-cycle'
+                        form = COEF_FORMS[(k + ci) % len(COEF_FORMS)]
+                        got = _keystone_opd_cycle(ctx, ap, r, x.shape, spec, dict(desc, cycle=ci, coef_form=form), tag=tag,
+                                                  fresh=mk if ci else None, coef_form=form)
+                        if ci:
+                            ctx.observe('keystone.opd-history')
+                        if got is not None:
+                            o1, a1, b1 = got
+                            res = ap.compose_opd(a1, b1, out=np.zeros_like(x))
+                            ctx.close('keystone.opd-out-keyword', res, o1, 'C18/keystone/compose_opd/out=zeros-differs' + tag,
+                                      'compose_opd(.., out=zeros) differs from compose_opd(..)', dict(desc, cycle=ci),
+                                      rtol=1e-12, scale=max(float(np.abs(o1).max()), 1e-300))
+
+
+def _run_opd_args(ctx):
+    """Class A for the apertures: the same x, y grid objects passed to two consecutive constructors (the later aperture is
+    judged against pristine copies), coefficient arguments in every container / dtype / layout and re-used across calls."""
+    from prysm.segmented import CompositeHexagonalAperture, CompositeKeystoneAperture
+    rng = ctx.rng('c18-opd-args')
+    grids = [(64, 65), (96, 96), (97, 97), (128, 129)] + ([] if ctx.quick else [(200, 200), (257, 256)])
+    with driving(ctx, wl='opd-args'):
+        for k in range(ctx.pick(20, 1500)):
+            sub = ctx.subseed(rng)
+            if not ctx.mine(k):
+                continue
+            r = np.random.default_rng(sub)
+            family = ['hex', 'keystone'][k % 2]
+            n0, n1 = grids[(k // 2) % len(grids)]
+            rings = 1 + (k // 2) % 3
+            if family == 'hex':
+                g1, g2 = _hex_geometry(r, n0, n1, rings), _hex_geometry(r, n0, n1, 1 + (rings % 3))
+                if g1 is None or g2 is None:
+                    ctx.skip('hex: segment smaller than 6 samples for this grid/ring count (not generated)')
+                    continue
+                dx = g1[0]
+                x, y = grid(n0, n1, dx)
+                x0, y0 = x.copy(), y.copy()
+                angle = [90, 0][(k // 2) % 2]
+                d2 = g2[1] * dx / g2[0]
+                gap2 = g2[2] * dx / g2[0]
+                desc = {'wl': 'opd-args', 'family': 'hex', 'grid': (n0, n1), 'dx': dx, 'rings': rings, 'segment_diameter': g1[1],
+                        'segment_separation': g1[2], 'segment_angle': angle, 'exclude': [], 'seed': sub,
+                        'class': f'args:hex:{grid_class(n0, n1)}:rings={rings}:angle={angle}:excl=none:fits'}
+                ctx.case(desc)
+                with ctx.guard('C18/hex', desc):
+                    first = CompositeHexagonalAperture(x, y, 1 + (rings % 3), d2, gap2, segment_angle=angle)
+                    first.prepare_opd_bases(*_hex_spec(r, 'xy', 3)[1:3], basis_func_kwargs={'cartesian_grid': False})
+                    first.compose_opd(r.standard_normal((len(first.segment_ids), 3)))
+                    ap = CompositeHexagonalAperture(x, y, rings, g1[1], g1[2], segment_angle=angle)     # same x, y objects
+                    ctx.observe('hex.grid-arrays-reused')
+                    got = _check_hex(ctx, ap, r, x0, y0, dx, rings, g1[1], g1[2], angle, (), desc)
+                    if got is None:
+                        continue
+                    _coef_laws(ctx, 'hex', lambda *c: ap.compose_opd(*c), [(len(ap.segment_ids), got[1])], r, desc)
+            else:
+                g1, g2 = _keystone_geometry(r, n0, n1, rings), _keystone_geometry(r, n0, n1, 1 + (rings % 3))
+                if g1 is None or g2 is None:
+                    ctx.skip('keystone: ring narrower than 5 samples for this grid/ring count (not generated)')
+                    continue
+                dx, kw = g1
+                kw2 = {k2: (v * dx / g2[0] if k2 in ('center_circle_diameter', 'ring_radius', 'radial_gap') or (k2 == 'azimuthal_gap' and v is not None) else v)
+                       for k2, v in g2[1].items()}
+                x, y = grid(n0, n1, dx)
+                x0, y0 = x.copy(), y.copy()
+                rl = kw['rotation_per_ring']
+                desc = {'wl': 'opd-args', 'family': 'keystone', 'grid': (n0, n1), 'dx': dx, 'seed': sub, 'kclass': '',
+                        'class': f'args:keystone:{grid_class(n0, n1)}:rings={rings}', **kw}
+                ctx.case(desc)
+                with ctx.guard('C18/keystone', desc):
+                    first = CompositeKeystoneAperture(x, y, **kw2)
+                    ap = CompositeKeystoneAperture(x, y, **kw)                                         # same x, y objects
+                    ctx.observe('keystone.grid-arrays-reused')
+                    agap = kw['radial_gap'] if kw['azimuthal_gap'] is None else kw['azimuthal_gap']
+                    ok = _check_keystone(ctx, ap, r, x0, y0, dx, kw['center_circle_diameter'], rings, [kw['ring_radius']] * rings,
+                                         list(kw['segments_per_ring']), kw['radial_gap'], agap, desc)
+                    if not ok:
+                        continue
+                    nseg = len(ap.segment_ids)
+                    _coef_laws(ctx, 'keystone', lambda *c: ap.compose_opd(*c), [(ok[0],), (nseg, ok[1])], r, desc)
+                    del first, rl
+
+
+def _coef_laws(ctx, fam, compose, shapes, r, desc):
+    """compose_opd with the same coefficient values in every container / layout / dtype, and with the same objects again."""
+    cs = [r.standard_normal(s) for s in shapes]
+    base = np.array(compose(*[c.copy() for c in cs]))
+    scale = max(float(np.abs(base).max()), 1e-300)
+    for form in COEF_FORMS[1:]:
+        got = compose(*[_coef_form(c, form) for c in cs])
+        ctx.close(f'{fam}.coef-forms', got, base, f'C18/{fam}/compose_opd/coefficient-container/{form}',
+                  'compose_opd gives a different map for the same coefficients passed in another container / memory layout',
+                  dict(desc, coef_form=form), rtol=1e-12, scale=scale)
+    # other dtypes: the same *values* (rounded to the narrow type first)
+    c32 = [c.astype(np.float32) for c in cs]
+    ref32 = np.array(compose(*[c.astype(np.float64) for c in c32]))
+    ctx.close(f'{fam}.coef-forms', compose(*c32), ref32, f'C18/{fam}/compose_opd/coefficient-dtype/float32',
+              'compose_opd with float32 coefficients differs from the same values in float64', dict(desc, coef_form='float32'),
+              rtol=1e-5, scale=max(float(np.abs(ref32).max()), 1e-300))
+    ci = [np.round(c * 3).astype(np.int64) for c in cs]
+    refi = np.array(compose(*[c.astype(np.float64) for c in ci]))
+    ctx.close(f'{fam}.coef-forms', compose(*ci), refi, f'C18/{fam}/compose_opd/coefficient-dtype/int64',
+              'compose_opd with integer coefficients differs from the same values in float64', dict(desc, coef_form='int64'),
+              rtol=1e-12, scale=max(float(np.abs(refi).max()), 1e-300))
+    # the same coefficient objects again, after all of the above
+    again = compose(*cs)
+    ctx.close(f'{fam}.coef-repeat', again, base, f'C18/{fam}/compose_opd/repeat/same-coefficient-objects',
+              'compose_opd called again with the same coefficient arrays gives a different map', desc, rtol=1e-12, scale=scale)
+    # linearity judged on this later call, the operands being the re-used objects
+    c2 = [r.standard_normal(s) for s in shapes]
+    lhs = compose(*[2.0 * a - 0.5 * b for a, b in zip(cs, c2)])
+    rhs = 2.0 * np.array(compose(*cs)) - 0.5 * np.array(compose(*c2))
+    ctx.close(f'{fam}.linear', lhs, rhs, f'C18/{fam}/compose_opd-nonlinear/coefficients-reused', 'compose_opd is not linear in the '
+              'coefficients (coefficient arrays re-used across calls)', desc, rtol=1e-10, scale=max(float(np.abs(rhs).max()), 1e-300))
+
+
+# ---- primitives: coordinate arrays re-used, memory layouts, coordinate dtypes ------------------------------------------
+COORD_LAYOUTS = ['C', 'F', 'strided-slice', 'transposed-view']
+COORD_DTYPES = ['float64', 'float32', 'int64']
+
+
+def _lay(a, how):
+    if how == 'C':
+        return np.ascontiguousarray(a)
+    if how == 'F':
+        return np.asfortranarray(a)
+    if how == 'transposed-view':
+        return np.ascontiguousarray(a.T).T
+    big = np.zeros((a.shape[0] * 2 + 1, a.shape[1] * 3 + 2), dtype=a.dtype)
+    big[1::2, 2::3] = a
+    return big[1::2, 2::3]
+
+
+def _prim_calls(g, r, half, dx, integer):
+    """One parameter set per primitive as (name, call(x, y, rr), size) ; sizes snap to the grid for integer coordinates."""
+    def q(v):
+        return float(max(1, round(v / dx)) * dx) if integer else float(v)
+    R = q(r.uniform(0.3, 0.8) * half)
+    rin = q(R * r.uniform(0.2, 0.7))
+    if integer and rin >= R:
+        rin = R - dx
+    c = (q(r.uniform(-0.3, 0.3) * half + dx) - dx, q(r.uniform(-0.3, 0.3) * half + dx) - dx)
+    sides = int(r.integers(3, 10))
+    rot = [0.0, 90.0, 30.0, float(r.uniform(-180, 180))][int(r.integers(4))]
+    w, h = q(r.uniform(0.2, 0.7) * half), q(r.uniform(0.2, 0.7) * half)
+    A = q(r.uniform(0.4, 0.8) * half)
+    B = q(A * r.uniform(0.3, 0.9))
+    vanes = int(r.integers(1, 7))
+    vw = q(r.uniform(1.5, 6) * dx)
+    return [
+        ('circle', lambda x, y, rr: g.circle(R, rr), R),
+        ('annulus', lambda x, y, rr: g.annulus(rin, R, rr), R),
+        ('offset_circle', lambda x, y, rr: g.offset_circle(R * 0.6, x, y, c), R * 0.6),
+        ('regular_polygon', lambda x, y, rr: g.regular_polygon(sides, R, x, y, center=c, rotation=rot), R),
+        ('rectangle', lambda x, y, rr: g.rectangle(w, x, y, height=h, angle=rot), max(w, h)),
+        ('rotated_ellipse', lambda x, y, rr: g.rotated_ellipse(A, B, x, y, major_axis_angle=rot), A),
+        ('spider', lambda x, y, rr: g.spider(vanes, vw, x, y, rotation=rot, center=c), half),
+    ]
+
+
+def _run_primitive_forms(ctx):
+    """The same coordinate array objects go through all seven primitives, twice; coordinates in every memory layout and as
+    float64 / float32 / integer arrays.  Contracts judge every call against a snapshot of what was passed in."""
+    from prysm import geometry as g
+    rng = ctx.rng('c18-prim-forms')
+    sizes = [(16, 17), (33, 33), (64, 64), (65, 48)] + ([] if ctx.quick else [(128, 129), (200, 160), (257, 257), (300, 301)])
+    reps = ctx.pick(1, 30)
+    k = -1
+    with driving(ctx, wl='primitive-forms'):
+        for rep in range(reps):
+            for (n0, n1) in sizes:
+                for layout in COORD_LAYOUTS:
+                    for dt in COORD_DTYPES:
+                        k += 1
+                        if not ctx.mine(k):
+                            ctx.subseed(rng)
+                            continue
+                        sub = ctx.subseed(rng)
+                        r = np.random.default_rng(sub)
+                        integer = dt == 'int64'
+                        dx = 1.0 if integer else [2.0, 1.0, 0.05][int(r.integers(3))] / max(n0, n1)
+                        x0, y0 = grid(n0, n1, dx)
+                        half = min(n0, n1) * dx / 2
+                        x, y = _lay(x0.astype(dt), layout), _lay(y0.astype(dt), layout)
+                        rr = _lay(np.hypot(x0, y0).astype('float64' if integer else dt), layout)
+                        xr, yr, rrr = np.array(x, dtype=float), np.array(y, dtype=float), np.array(rr, dtype=float)
+                        desc = {'wl': 'primitive-forms', 'grid': (n0, n1), 'dx': dx, 'layout': layout, 'coord_dtype': dt, 'seed': sub,
+                                'class': f'forms:{layout}:{dt}:{grid_class(n0, n1)}'}
+                        ctx.case(desc)
+                        calls = _prim_calls(g, r, half, dx, integer)
+                        first, bands = {}, {}
+                        for rnd in (0, 1):
+                            for name, call, size in calls:
+                                with ctx.guard(f'C18/{name}/coords={dt}/{layout}', dict(desc, prim=name)):
+                                    m = np.asarray(call(x, y, rr)) != 0
+                                    if rnd == 0:
+                                        first[name] = m
+                                        # reference: the same values as pristine C-ordered float64 arrays
+                                        ref = np.asarray(call(xr.copy(), yr.copy(), rrr.copy())) != 0
+                                        bands[name] = band = _edge_band(ref) if ref.shape == m.shape else None
+                                        ctx.observe('primitive.layout')
+                                        bad = ((m != ref) & ~band) if band is not None else np.ones(1, dtype=bool)
+                                        if m.shape != ref.shape or bad.any():
+                                            ctx.violation(f'C18/{name}/coordinate-form/{layout if dt == "float64" else dt}',
+                                                          f'{name} gives a different mask for the same coordinates passed in another memory '
+                                                          'layout / dtype (outside the boundary band)', dict(desc, prim=name),
+                                                          samples=int(bad.sum()) if m.shape == ref.shape else -1)
+                                    else:
+                                        ctx.observe('primitive.repeat')
+                                        band = bands.get(name)
+                                        if band is None:
+                                            continue
+                                        if name in first and (m.shape != first[name].shape or ((m != first[name]) & ~band).any()):
+                                            ctx.violation(f'C18/{name}/repeat/same-coordinate-arrays',
+                                                          f'{name} called again with the same coordinate arrays (after the other primitives '
+                                                          'used them) gives a different mask', dict(desc, prim=name))
+
+
+def _edge_band(m):
+    """Samples that touch (8-neighbourhood) a transition of the mask: the rasterised boundary, not compared between forms
+    (float32 coordinates round differently; the joggled triangulation may decide an on-edge sample either way)."""
+    b = np.zeros(m.shape, dtype=bool)
+    for a0, a1 in (((slice(1, None), slice(None)), (slice(None, -1), slice(None))),
+                   ((slice(None), slice(1, None)), (slice(None), slice(None, -1))),
+                   ((slice(1, None), slice(1, None)), (slice(None, -1), slice(None, -1))),
+                   ((slice(1, None), slice(None, -1)), (slice(None, -1), slice(1, None)))):
+        d = m[a0] != m[a1]
+        b[a0] |= d
+        b[a1] |= d
+    return b
+
+
+# ---- configuration: precision 32, then 64 --------------------------------------------------------------------------------
+def _run_precision(ctx):
+    """config.precision = 32 (regular_polygon builds its vertices in that precision) for primitives with float64 and float32
+    coordinates, hexagonal and keystone apertures; then the same under precision 64 at the normal band."""
+    from prysm import geometry as g
+    from prysm.segmented import CompositeHexagonalAperture, CompositeKeystoneAperture
+    from ..util import precision
+    rng = ctx.rng('c18-precision')
+    prims = ['circle', 'annulus', 'offset_circle', 'regular_polygon', 'rectangle', 'rotated_ellipse', 'spider']
+    sizes = [(32, 33), (64, 64), (65, 65)] + ([] if ctx.quick else [(128, 129), (200, 200), (257, 257)])
+    t32, t64 = Tagged(ctx, '/precision=32'), Tagged(ctx, '/after-precision-32')
+    k = -1
+    for rep in range(ctx.pick(2, 100)):
+        for (n0, n1) in sizes:
+            k += 1
+            sub = ctx.subseed(rng)
+            if not ctx.mine(k):
+                continue
+            for phase, tctx in (('precision=32', t32), ('after-precision-32', t64)):
+                r = np.random.default_rng(sub)
+                cm = precision(32) if phase == 'precision=32' else _Null()
+                with cm, driving(tctx, wl=phase):
+                    ctx.observe('precision32.cases' if phase == 'precision=32' else 'precision32-then-64.cases')
+                    for cdt in ('float64', 'float32'):
+                        ext = [2.0, 1.0, 10.0][int(r.integers(3))]
+                        dx = ext / max(n0, n1)
+                        x, y = grid(n0, n1, dx)
+                        x, y = x.astype(cdt), y.astype(cdt)
+                        for prim in prims:
+                            base = {'wl': 'precision', 'phase': phase, 'prim': prim, 'grid': (n0, n1), 'dx': dx, 'coords': cdt, 'seed': sub}
+                            _primitive_case(tctx, g, r, prim, x, y, n0, n1, dx, ext / 2, base)
+                    # one hexagonal and one keystone aperture per case
+                    rings = 1 + k % 3
+                    geo = _hex_geometry(r, n0, n1, rings)
+                    if geo is not None and min(n0, n1) >= 64:
+                        dx, d, gap = geo
+                        x, y = grid(n0, n1, dx)
+                        angle = [90, 0][k % 2]
+                        excl = _exclusion(r, ['none', 'centre', 'random'][k % 3], sh.hex_count(rings))
+                        desc = {'wl': 'precision', 'phase': phase, 'grid': (n0, n1), 'dx': dx, 'rings': rings, 'segment_diameter': d,
+                                'segment_separation': gap, 'segment_angle': angle, 'exclude': list(excl), 'seed': sub,
+                                'class': f'{phase}:hex:{grid_class(n0, n1)}:rings={rings}:angle={angle}'}
+                        ctx.case(desc)
+                        with tctx.guard('C18/hex', desc):
+                            ap = CompositeHexagonalAperture(x, y, rings, d, gap, segment_angle=angle, exclude=excl)
+                            _check_hex(tctx, ap, r, x, y, dx, rings, d, gap, angle, excl, desc)
+                    geo = _keystone_geometry(r, n0, n1, rings)
+                    if geo is not None and min(n0, n1) >= 64:
+                        dx, kw = geo
+                        x, y = grid(n0, n1, dx)
+                        desc = {'wl': 'precision', 'phase': phase, 'grid': (n0, n1), 'dx': dx, 'seed': sub, 'kclass': '',
+                                'class': f'{phase}:keystone:{grid_class(n0, n1)}:rings={rings}', **kw}
+                        ctx.case(desc)
+                        with tctx.guard('C18/keystone', desc):
+                            ap = CompositeKeystoneAperture(x, y, **kw)
+                            agap = kw['radial_gap'] if kw['azimuthal_gap'] is None else kw['azimuthal_gap']
+                            _check_keystone(tctx, ap, r, x, y, dx, kw['center_circle_diameter'], rings, [kw['ring_radius']] * rings,
+                                            list(kw['segments_per_ring']), kw['radial_gap'], agap, desc)
+
+
+class _Null:
+    def __enter__(self):
+        return None
+
+    def __exit__(self, *a):
+        return False
+
+
+# ---- numeric regimes: many rings, many sides, extreme aspect ratios ------------------------------------------------------
+def _run_regimes(ctx):
+    from prysm import geometry as g
+    from prysm.segmented import CompositeHexagonalAperture, CompositeKeystoneAperture
+    rng = ctx.rng('c18-regimes')
+    with driving(ctx, wl='regimes'):
+        # hexagonal apertures with 4..6 (quick) / 4..9 (thorough) rings
+        cases = [(4, (200, 201)), (5, (257, 257)), (6, (300, 301)), (5, (256, 300))]
+        if not ctx.quick:
+            cases += [(r_, gsz) for r_ in (4, 5, 6, 7, 8, 9) for gsz in ((384, 385), (513, 513), (512, 600))] * 2
+        for k, (rings, (n0, n1)) in enumerate(cases):
+            sub = ctx.subseed(rng)
+            if not ctx.mine(k):
+                continue
+            r = np.random.default_rng(sub)
+            geo = _hex_geometry(r, n0, n1, rings)
+            if geo is None:
+                ctx.skip('hex: segment smaller than 6 samples for this grid/ring count (not generated)')
+                continue
+            dx, d, gap = geo
+            x, y = grid(n0, n1, dx)
+            angle = [90, 0][k % 2]
+            ecls = ['none', 'random', 'centre', 'all-but-one'][k % 4]
+            excl = _exclusion(r, ecls, sh.hex_count(rings))
+            desc = {'wl': 'regimes', 'grid': (n0, n1), 'dx': dx, 'rings': rings, 'segment_diameter': d, 'segment_separation': gap,
+                    'segment_angle': angle, 'exclude': list(excl), 'seed': sub,
+                    'class': f'hex:{grid_class(n0, n1)}:rings={rings}:angle={angle}:excl={ecls}:fits'}
+            ctx.case(desc)
+            ctx.observe('regime.hex-rings>=4')
+            with ctx.guard('C18/hex', desc):
+                ap = CompositeHexagonalAperture(x, y, rings, d, gap, segment_angle=angle, exclude=excl)
+                _check_hex(ctx, ap, r, x, y, dx, rings, d, gap, angle, excl, desc)
+        # keystone apertures with 4..5 (quick) / 4..8 rings
+        cases = [(4, (257, 257)), (5, (300, 300))] + ([] if ctx.quick else [(r_, gsz) for r_ in (4, 5, 6, 7, 8) for gsz in ((385, 385), (512, 512))] * 2)
+        for k, (rings, (n0, n1)) in enumerate(cases):
+            sub = ctx.subseed(rng)
+            if not ctx.mine(k + 1):
+                continue
+            r = np.random.default_rng(sub)
+            geo = _keystone_geometry(r, n0, n1, rings)
+            if geo is None:
+                ctx.skip('keystone: ring narrower than 5 samples for this grid/ring count (not generated)')
+                continue
+            dx, kw = geo
+            x, y = grid(n0, n1, dx)
+            desc = {'wl': 'regimes', 'grid': (n0, n1), 'dx': dx, 'seed': sub, 'kclass': '',
+                    'class': f'keystone:{grid_class(n0, n1)}:rings={rings}', **kw}
+            ctx.case(desc)
+            ctx.observe('regime.keystone-rings>=4')
+            with ctx.guard('C18/keystone', desc):
+                ap = CompositeKeystoneAperture(x, y, **kw)
+                agap = kw['radial_gap'] if kw['azimuthal_gap'] is None else kw['azimuthal_gap']
+                _check_keystone(ctx, ap, r, x, y, dx, kw['center_circle_diameter'], rings, [kw['ring_radius']] * rings,
+                                list(kw['segments_per_ring']), kw['radial_gap'], agap, desc)
+        # polygons with many sides; grids with extreme aspect ratios for every primitive
+        k = -1
+        for sides in ([13, 16, 24, 50] if ctx.quick else list(range(13, 41)) + [50, 64, 100, 128]):
+            for (n0, n1) in ((64, 65), (129, 129)):
+                k += 1
+                if not ctx.mine(k):
+                    continue
+                dx = 2.0 / max(n0, n1)
+                x, y = grid(n0, n1, dx)
+                rot = [0.0, 90.0, 11.0][k % 3]
+                c = [(0.0, 0.0), (0.21, -0.13)][k % 2]
+                desc = {'wl': 'regimes', 'grid': (n0, n1), 'sides': sides, 'rotation': rot, 'center': c,
+                        'class': f'regular_polygon:sides>12:{grid_class(n0, n1)}'}
+                with ctx.guard('C18/regular_polygon/sides>12', desc):
+                    m = g.regular_polygon(sides, 0.7, x, y, center=c, rotation=rot)
+                    ctx.case(desc, nontrivial=_nontrivial(m))
+                    ctx.observe('regime.polygon-sides>12')
+        prims = ['circle', 'annulus', 'offset_circle', 'regular_polygon', 'rectangle', 'rotated_ellipse', 'spider']
+        aspect = [(4, 64), (64, 5), (8, 300), (301, 9)] + ([] if ctx.quick else [(3, 1000), (1001, 4), (16, 2048), (2049, 12)])
+        for rep in range(ctx.pick(2, 30)):
+            for (n0, n1) in aspect:
+                for prim in prims:
+                    k += 1
+                    sub = ctx.subseed(rng)
+                    if not ctx.mine(k):
+                        continue
+                    r = np.random.default_rng(sub)
+                    # the long side sets the sampling; sizes are drawn against the *short* half extent so the shape is cut by
+                    # the grid on some cases and inside it on others
+                    dx = 1.0 / max(n0, n1)
+                    x, y = grid(n0, n1, dx)
+                    half = max(float(r.uniform(0.6, 4.0)) * min(n0, n1) * dx / 2, 8 * dx)
+                    base = {'wl': 'aspect', 'prim': prim, 'grid': (n0, n1), 'dx': dx, 'seed': sub}
+                    ctx.observe('regime.aspect')
+                    _primitive_case(ctx, g, r, prim, x, y, n0, n1, dx, half, base)
 
 
 # =========================================================================================== run
@@ -873,13 +1594,28 @@ def run(ctx):
     SENSE.clear()
     install()
     try:
+        _run_precision(ctx)          # first: the 32-bit phase must precede every 64-bit use of the same routines
         _run_primitives(ctx)
         _run_rejections(ctx)
         _run_hex(ctx)
         _run_keystone(ctx)
+        _run_primitive_forms(ctx)
+        _run_opd_histories(ctx)
+        _run_opd_args(ctx)
+        _run_regimes(ctx)
         ctx.note('rotation_sense', {k: ('+' if v > 0 else '-') for k, v in SENSE.items()})
     finally:
         detach_all()
+
+
+def install_monitors(ctx):
+    """For vp/pytest_monitors.py: the geometry contracts on the repository's own test traffic."""
+    global CTX
+    CTX = ctx
+    SENSE.clear()
+    WL.clear()
+    WL['wl'] = 'pytest'
+    install()
 
 
 def replay(ctx, rec):
